@@ -2,12 +2,24 @@
 import io
 
 
+def filter_pages(pages, prefix):
+    if not prefix:
+        return pages
+    out = []
+    for p in pages:
+        if 'Contents' in p:
+            p = dict(p, Contents=[c for c in p['Contents'] if c['Key'].startswith(prefix)])
+        out.append(p)
+    return out
+
+
 class FakePaginator:
     def __init__(self, pages):
         self.pages = pages
 
     def paginate(self, Bucket=None, Prefix=None, **kw):
-        for p in self.pages:
+        # like S3: only the keys that start with the prefix are listed
+        for p in filter_pages(self.pages, Prefix):
             yield p
 
 
